@@ -991,6 +991,81 @@ def _unroll_table_loops(fn: ast.FunctionDef, tables: Dict[str, ast.expr]) -> boo
     return changed
 
 
+def _inline_attr_aliases(fn: ast.FunctionDef) -> None:
+    """x = <param or once-assigned name>.a.b   (a pure attribute chain, x assigned exactly once, never deleted, the chain's root
+    never rebound and no store through the chain anywhere in the function): every read of x is written as the chain.  Covers
+    `is_excluded = spec.match_file`, `auto_exclude = settings.input.auto_exclude_directories_without_cmake`, ..."""
+    params = {a.arg for a in fn.args.posonlyargs + fn.args.args + fn.args.kwonlyargs}
+    for _ in range(12):
+        stores: Dict[str, int] = {}
+        for n in ast.walk(fn):
+            if isinstance(n, ast.Name) and isinstance(n.ctx, (ast.Store, ast.Del)):
+                stores[n.id] = stores.get(n.id, 0) + 1
+            elif isinstance(n, (ast.Global, ast.Nonlocal)):
+                for g in n.names:
+                    stores[g] = stores.get(g, 0) + 2
+        cand = None
+        for owner in ast.walk(fn):
+            for field in ("body", "orelse", "finalbody"):
+                blk = getattr(owner, field, None)
+                if not isinstance(blk, list):
+                    continue
+                for st in blk:
+                    tgt = val = None
+                    if isinstance(st, ast.Assign) and len(st.targets) == 1:
+                        tgt, val = st.targets[0], st.value
+                    elif isinstance(st, ast.AnnAssign) and st.value is not None:
+                        tgt, val = st.target, st.value
+                    if not (isinstance(tgt, ast.Name) and isinstance(val, ast.Attribute)) or stores.get(tgt.id) != 1 or tgt.id in params:
+                        continue
+                    chain = []
+                    b = val
+                    while isinstance(b, ast.Attribute):
+                        chain.append(b.attr)
+                        b = b.value
+                    if not isinstance(b, ast.Name) or b.id == "self":
+                        continue
+                    root = b.id
+                    if not (root in params and stores.get(root, 0) == 0) and not (stores.get(root) == 1 and root not in params):
+                        continue
+                    text = ast.unparse(val)
+                    # no store through the chain (or a prefix / extension of it) anywhere in the function
+                    mutated = False
+                    for n in ast.walk(fn):
+                        if isinstance(n, (ast.Attribute, ast.Subscript)) and isinstance(n.ctx, (ast.Store, ast.Del)):
+                            t = ast.unparse(n)
+                            if t.startswith(root + ".") and (t.startswith(text) or text.startswith(t)):
+                                mutated = True
+                    if mutated:
+                        continue
+                    # every read of the alias lies in the statements that follow its definition in the same block
+                    idx0 = blk.index(st)
+                    later_ids = {id(x) for later in blk[idx0 + 1:] for x in ast.walk(later)}
+                    loads = [x for x in ast.walk(fn) if isinstance(x, ast.Name) and x.id == tgt.id and isinstance(x.ctx, ast.Load)]
+                    if not loads or any(id(x) not in later_ids for x in loads):
+                        continue
+                    cand = (blk, st, tgt.id, val)
+                    break
+                if cand:
+                    break
+            if cand:
+                break
+        if cand is None:
+            return
+        blk, st, name, val = cand
+        idx = blk.index(st)
+        # uses before the definition (none in valid code) are left alone: only replace in statements after it
+        class R(ast.NodeTransformer):
+            def visit_Name(self, node):
+                if node.id == name and isinstance(node.ctx, ast.Load):
+                    return ast.copy_location(copy.deepcopy(val), node)
+                return node
+        for later in blk[idx + 1:]:
+            R().visit(later)
+        blk.remove(st)
+        ast.fix_missing_locations(fn)
+
+
 def _tag_fusion(fn: ast.FunctionDef) -> None:
     """k = TAG_1 if/elif/else chain (one assignment of a distinct constant tag per arm, nothing else), k only ever compared with
     tags afterwards: every `k is TAG_i` / `k == TAG_i` is replaced by the condition under which arm i is taken."""
@@ -1625,6 +1700,8 @@ def _flatten_module(tree: ast.Module, imported: Dict[str, ast.FunctionDef]) -> T
             _fission(node)
             _tag_fusion(node)
             _splice_dict_kwargs(node)
+            if not UNDERSCORE_ONLY:
+                _inline_attr_aliases(node)
     # drop helpers that are no longer referenced
     inlined = sorted(set(inlined))
     if inlined:
